@@ -2,12 +2,101 @@ package checks
 
 import (
 	"fmt"
+	"os"
+	"path/filepath"
+	"strings"
+	"time"
 
 	"verif/sim/core"
+	"verif/sim/world"
 )
 
-// SelfTest is filled in per engine (determinism proof).
+// SelfTest is the determinism proof (not a registered check; run by hand and after every new
+// seam or fault kind):
+//
+//	A. engine W: the same (world, plan) executed by children with GOMAXPROCS 1, 4 and 16 must
+//	   give identical exit status, result tree, stderr/stdout and event log;
+//	B. every property's quick check run twice — 16 workers vs 5 workers with GOMAXPROCS=3 — must
+//	   explore exactly the same cases with the same outcomes (canonical summaries are diffed).
 func SelfTest(c *core.Ctx, args []string) int {
-	fmt.Println("selftest: not yet implemented")
-	return core.ExitTrouble
+	props := []string{"C03", "C04", "C05", "C06", "C09", "C10", "C12", "C15", "C18", "C20"}
+	if len(args) > 0 {
+		props = args
+	}
+	bad := 0
+	// ---- A
+	c.PrepareRepo(true)
+	nW := 40
+	type resA struct{ diff string }
+	resA_ := core.ParallelMap(c.Jobs, nW, func(i int) resA {
+		r := core.Stream(c.Seed, "selftest-world", i)
+		proj, _ := genC06World(r)
+		tree := proj.Tree()
+		plan := world.Plan(core.Pick(r, []string{"asc", "desc", "random", "rotate"}), r.Uint64(), 2, 2000+i, 100+i)
+		var ref world.StepResult
+		var refDigest string
+		for j, gmp := range []string{"1", "4", "16", "2"} {
+			base := filepath.Join(c.Scratch, "st", fmt.Sprintf("w%d", i))
+			root := filepath.Join(base, "root")
+			world.RemoveAll(base)
+			if err := tree.Materialise(root); err != nil {
+				return resA{err.Error()}
+			}
+			res := world.Run(c.Bin, root, base, world.Step{Plan: plan, Env: map[string]string{"GOMAXPROCS": gmp}}, 90*time.Second)
+			snap, _ := world.Snap(root)
+			if j == 0 {
+				ref, refDigest = res, snap.Digest()
+				continue
+			}
+			switch {
+			case res.Exit != ref.Exit:
+				return resA{fmt.Sprintf("world %d: exit %d vs %d (GOMAXPROCS=%s)", i, ref.Exit, res.Exit, gmp)}
+			case snap.Digest() != refDigest:
+				return resA{fmt.Sprintf("world %d: result tree differs (GOMAXPROCS=%s)", i, gmp)}
+			case res.EvRaw != ref.EvRaw:
+				return resA{fmt.Sprintf("world %d: event log differs (GOMAXPROCS=%s)", i, gmp)}
+			case res.Stderr != ref.Stderr || res.Stdout != ref.Stdout:
+				return resA{fmt.Sprintf("world %d: output differs (GOMAXPROCS=%s)", i, gmp)}
+			}
+			world.RemoveAll(base)
+		}
+		return resA{}
+	})
+	for _, r := range resA_ {
+		if r.diff != "" {
+			fmt.Println("SELFTEST DIVERGENCE (A):", r.diff)
+			bad++
+		}
+	}
+	fmt.Printf("selftest A: %d worlds × 4 executions of the same plan (GOMAXPROCS 1/4/16/2): %d divergences\n", nW, bad)
+	// ---- B
+	exe, _ := os.Executable()
+	for _, p := range props {
+		var sums [2]string
+		for k, cfg := range [][]string{{"VERIF_JOBS=16"}, {"VERIF_JOBS=5", "GOMAXPROCS=3"}} {
+			sp := filepath.Join(c.Scratch, fmt.Sprintf("summary-%s-%d.json", p, k))
+			env := append(os.Environ(), cfg...)
+			env = append(env, "VERIF_SUMMARY="+sp, "VERIF_DIR="+c.VerifDir, fmt.Sprintf("VERIF_SEED=%d", int64(c.Seed&0x7fffffffffffff)), "VERIF_NO_EVIDENCE=1")
+			r := core.RunCmd(c.VerifDir, env, 40*time.Minute, exe, p, "quick")
+			if r.Exit != 0 {
+				fmt.Printf("SELFTEST: %s quick exited %d under %v: %s\n", p, r.Exit, cfg, tail(r.Stdout+r.Stderr, 500))
+				bad++
+			}
+			b, _ := os.ReadFile(sp)
+			sums[k] = string(b)
+		}
+		if sums[0] == "" || sums[0] != sums[1] {
+			bad++
+			fmt.Printf("SELFTEST DIVERGENCE (B): %s explored different things with 16 and with 5 workers\n--- 16 workers\n%s\n--- 5 workers, GOMAXPROCS=3\n%s\n", p, tailStr(sums[0], 1500), tailStr(sums[1], 1500))
+		} else {
+			fmt.Printf("selftest B: %s identical summaries (%d bytes) under 16 workers and 5 workers/GOMAXPROCS=3\n", p, len(sums[0]))
+		}
+	}
+	if bad > 0 {
+		fmt.Printf("selftest: %d divergences\n", bad)
+		return core.ExitTrouble
+	}
+	fmt.Println("selftest: deterministic")
+	_ = strings.Join
+	return core.ExitOK
 }
